@@ -113,6 +113,23 @@ def check(ctx):
                 disp, var = m_, a_.targets[0].id
     schema_tags = sorted({CLASS_TAG[c.name] for c in amod.classes.values() if c.name in CLASS_TAG and 'fqn' in c.fields}
                          | {'file-name', 'import', 'namespace'})
+    assume_subject = None
+    if disp is pe and not any(isinstance(x, ast.Name) and x.id == 'cls' for x in iter_own_nodes(pe.node)):
+        # the class value is not held in a local of parse_element: the dispatching function is the method that compares one
+        # and the same expression with the most class tags (`match visit.cls: case 'component': ...` in a helper method)
+        best = (0, None, None)
+        for m_ in parser.methods.values():
+            subj: Dict[str, Set[str]] = {}
+            for c_ in iter_own_nodes(m_.node):
+                if isinstance(c_, ast.Compare) and len(c_.ops) == 1 and isinstance(c_.ops[0], ast.Eq) and \
+                        isinstance(c_.comparators[0], ast.Constant) and c_.comparators[0].value in set(schema_tags) and \
+                        isinstance(c_.left, (ast.Name, ast.Attribute)):
+                    subj.setdefault(ast.unparse(c_.left), set()).add(c_.comparators[0].value)
+            for k_, tags_ in subj.items():
+                if len(tags_) > best[0]:
+                    best = (len(tags_), m_, k_)
+        if best[1] is not None and best[0] >= 5:
+            disp, var, assume_subject = best[1], best[2], best[2]
     literal_tags = set()
     for x in ast.walk(jmod.tree):
         if isinstance(x, ast.Constant) and isinstance(x.value, str) and x.value in CLASS_TAG.values():
@@ -132,11 +149,18 @@ def check(ctx):
 
     branches = []
     for tag in sorted(set(schema_tags) | literal_tags):
-        body = core(residual(prog, disp, {var: tag}))
+        body = core(residual(prog, disp, {var: tag}) if assume_subject is None else
+                    residual(prog, disp, {}, assume={assume_subject: ast.Constant(value=tag)}))
         has_parse = any(isinstance(c, ast.Call) and getattr(c.func, 'id', '').startswith('parse_') for s_ in body for c in ast.walk(s_))
         if has_parse:
             branches.append((tag, body, f"<class> '{tag}'"))
-    else_body = residual(prog, disp, {var: '<no such class>'})
+    else_body = residual(prog, disp, {var: '<no such class>'}) if assume_subject is None else \
+        residual(prog, disp, {}, assume={assume_subject: ast.Constant(value='<no such class>')})
+    if len({'\n'.join(ast.unparse(s_) for s_ in b_) for _t, b_, _l in branches}) == 1 and len(branches) > 1:
+        run.error('C05.dispatch', disp.module.name, disp.qualname, 'dispatch',
+                  f'the dispatch on the <class> value could not be specialised: the code that remains for an element is the same '
+                  f'for every one of the {len(branches)} classes (the class value is not held where the rule looks for it)')
+        return
     run.stats['dispatch_function'] = disp.qualname
     run.stats['dispatch_tags_with_a_parser'] = [t for t, _b, _l in branches]
     if len(branches) < 5:
@@ -197,6 +221,18 @@ def check(ctx):
             'every container has exactly one writing branch' if not dup else f'containers written by several branches: {dup}')
     # coverage: every declaration class of ast.py with fqn + Filename + Import
     need = {CLASS_TAG[c.name] for c in amod.classes.values() if 'fqn' in c.fields} | {'file-name', 'import', 'namespace'}
+    # a traversal that is organised differently (explicit work list, generator): namespaces are recognised and descended into
+    # by another function than the one that dispatches on the class value
+    ns_elsewhere = [f_ for f_ in jmod.functions.values() if f_ is not disp and
+                    any(isinstance(c_, ast.Compare) and any(isinstance(k_, ast.Constant) and k_.value == 'namespace' for k_ in ast.walk(c_))
+                        for c_ in iter_own_nodes(f_.node)) and
+                    any(isinstance(c_, ast.Call) and getattr(c_.func, 'id', '') == 'parse_namespace' for c_ in iter_own_nodes(f_.node))]
+    ns_elsewhere += [f_ for f_ in parser.methods.values() if f_ is not disp and f_ not in ns_elsewhere and
+                     any(isinstance(c_, ast.Compare) and any(isinstance(k_, ast.Constant) and k_.value == 'namespace' for k_ in ast.walk(c_))
+                         for c_ in iter_own_nodes(f_.node)) and
+                     any(isinstance(c_, ast.Call) and getattr(c_.func, 'id', '') == 'parse_namespace' for c_ in iter_own_nodes(f_.node))]
+    if 'namespace' not in seen_tags and ns_elsewhere:
+        need.discard('namespace')
     missing = sorted(need - seen_tags)
     run.add('C05.dispatch', pe.module.name, pe.qualname, 'branch coverage', not missing,
             f'all {len(need)} declaration classes have a branch' if not missing else
@@ -297,7 +333,12 @@ def check(ctx):
                 f'{label}: skipped without affecting siblings' if not bad else
                 f'{label}: handling it raises / leaves the loop - following siblings are lost', node=bad[0] if bad else None)
     ns_branch = next((b for t, b, _x in branches if t == 'namespace'), None)
-    if ns_branch is None:
+    if ns_branch is None and ns_elsewhere:
+        run.error('C05.siblings', pe.module.name, ns_elsewhere[0].qualname, 'namespace traversal',
+                  f'namespaces are recognised in {ns_elsewhere[0].qualname}, not in the dispatching function {disp.qualname}: the '
+                  f'traversal (work list / generator) is not of a form this rule can follow - that every member of a namespace '
+                  f'and every root element is parsed once under the right scope is not decided')
+    elif ns_branch is None:
         run.violation('C05.siblings', pe.module.name, pe.qualname, 'namespace branch', 'namespaces are not descended into')
     else:
         loops = [s for s in ns_branch if isinstance(s, ast.For)]
@@ -332,9 +373,10 @@ def check(ctx):
     loops = [n for n in iter_own_nodes(proc.node) if isinstance(n, ast.For) and 'parse_element' in ast.unparse(n)] if proc else []
     ok = len(loops) == 1 and not isinstance(loops[0].iter, ast.Call) and ast.unparse(loops[0].iter).endswith('.elements') and len(loops[0].body) == 1 and \
         'parse_element' in ast.unparse(loops[0].body[0]) and 'self._ns_trail' in ast.unparse(loops[0].body[0])
-    run.add('C05.siblings', jmod.name, 'DznJsonAst.process', loops[0] if loops else 'process loop', ok,
-            'process() parses every root element in order under the root scope' if ok else
-            'process() does not feed every root element to parse_element under the root scope')
+    if not (ns_branch is None and ns_elsewhere):
+        run.add('C05.siblings', jmod.name, 'DznJsonAst.process', loops[0] if loops else 'process loop', ok,
+                'process() parses every root element in order under the root scope' if ok else
+                'process() does not feed every root element to parse_element under the root scope')
     run.floor('C05.siblings', 4)
 
     # ---- C05.fields / C05.order ----------------------------------------------------------------------------------------------
